@@ -112,7 +112,7 @@ def expected(stream_frames, k):
     return items, error, closed_by_frame
 
 
-def run_one_cut(res, rng, prog, S, k, transport, variant, label, user_closes=None):
+def run_one_cut(res, rng, prog, S, k, transport, variant, label, user_closes=None, hammer=False):
     from execnet.gateway_base import RemoteError
     from vlib import pairs
 
@@ -236,6 +236,23 @@ def run_one_cut(res, rng, prog, S, k, transport, variant, label, user_closes=Non
         for c in backlog:
             attach(c)
         in_backlog.wait(0.2)
+    if hammer:
+        # a user thread keeps sending while the connection goes down: accepted, or OSError - nothing else ever
+        hch = gw.newchannel()
+
+        def hammerer():
+            t_end = time.monotonic() + 3.0
+            try:
+                while time.monotonic() < t_end:
+                    hch.send(b"h")
+            except OSError:
+                pass
+            except BaseException as e:  # noqa
+                res.violation(f"send-during-connection-loss-raised-{type(e).__name__}:{transport}", f"{label}: {e!r}")
+
+        ht = threading.Thread(target=hammerer, daemon=True)
+        threads.append(ht)
+        ht.start()
     m_uc = f"user-close-during-connection-loss-raised:{transport}"
     if user_closes is not None and chans.get(user_closes) is not None:
         # a user thread closes one of its channels just while the connection goes down (it cannot know): its close
@@ -514,6 +531,8 @@ def run_finish_sweep(spec):
         lines = imodel.function_lines(gb.BaseGateway._thread_receiver, gb.ChannelFactory._finished_receiving, gb.ChannelFactory._local_close,
                                       gb.ChannelFactory._no_longer_opened, gb.Channel.waitclose, gb.Channel.receive, gb.Channel._getremoteerror)
         nlo_lines = set(imodel.function_lines(gb.ChannelFactory._no_longer_opened))
+        io_lines = set(imodel.function_lines(gb.Popen2IO.write, gb.Popen2IO.close_write, gb.BaseGateway._send, gb.Message.to_io))
+        lines = lines + sorted(io_lines - set(lines))
         todo = [(ln, k) for ln in lines for k in spec["ks"]]
         todo = [t for i, t in enumerate(todo) if i % spec["parts"] == spec["part"]] + [(None, i) for i in range(spec["noise_runs"])]
         for ln, k in todo:
@@ -543,7 +562,8 @@ def run_finish_sweep(spec):
                 uc = prog["cids"][k % len(prog["cids"])]
                 prog["modes"][uc]["mode"] = "callback"
             try:
-                run_one_cut(res, rng, prog, S, cut, "pipe", "both", label + (f" user closes channel {uc} meanwhile" if uc else ""), user_closes=uc)
+                run_one_cut(res, rng, prog, S, cut, "pipe", "both", label + (f" user closes channel {uc} meanwhile" if uc else ""), user_closes=uc,
+                            hammer=(ln is None or ln in io_lines))
             except BaseException as e:
                 res.violation(f"cut-run-raised:{type(e).__name__}", f"{label}: {e}")
             pre.off()
